@@ -163,6 +163,8 @@ func main() {
 		err = engineMain(*prop, *tier, *seed, *out, *replay)
 	case "store":
 		err = storeMain(*prop, *tier, *seed, *out, *replay)
+	case "values":
+		err = valuesMain(*prop, *tier, *seed, *out, *replay)
 	default:
 		err = fmt.Errorf("unknown family %q", family)
 	}
